@@ -92,6 +92,8 @@ structure ConstsOk (c : Consts ℝ) : Prop where
   sm : 0 < c.alzfsm
   pm : 0 < c.alzfpm
   pbase : 0 ≤ c.pbase
+  saved0 : 0 ≤ c.saved
+  saved1 : c.saved ≤ c.alzfpm + c.alzfsm
 
 theorem ParamsOk.lztwm_pos {p : Params ℝ} (hp : ParamsOk p) : 0 < p.lztwm := by linarith [hp.lztwm]
 
